@@ -2,7 +2,9 @@ package gbn
 
 import (
 	"context"
+	"fmt"
 	"io"
+	"math"
 	"time"
 )
 
@@ -139,6 +141,10 @@ handshakeLoop:
 
 		g.log.Debugf("Received client SYN. Sending back.")
 		n = msg.(*PacketSYN).N
+		if n == math.MaxUint8 {
+			return fmt.Errorf("client proposed n=%d, must be "+
+				"smaller than %d", n, math.MaxUint8)
+		}
 
 		// Send SYN back
 		syn := &PacketSYN{N: n}
